@@ -215,6 +215,8 @@ def gen_history(rng, nops):
             if how == "indices" and rng.random() < 0.1:
                 op["indices"] = op["indices"] + [rng.choice([bits, bits + 1])]
             op["counts"] = None if how == "indices" else f["cnt"]
+            if how == "counts" and rng.random() < 0.1:
+                op["counts"] = op["counts"] + [[rng.choice([bits, bits + 3]), "2"]]      # a count at a position beyond the last one: refused
         return op
 
     emit(new_op())
@@ -347,6 +349,12 @@ def frame_oracle(ops):
         except Exception:  # noqa: BLE001
             pass
         now = [im.dump_obj(o) for o in im.objs]
+        if op["o"] == "new" and now:
+            d = now[-1]["fp"]
+            beyond = [i for i in d["idx"] + [c[0] for c in d["cnt"]] if not isinstance(i, int) or i >= d["bits"]]
+            if beyond and len(now) > len(prev):
+                return {"key": "position-beyond-length-accepted:" + d["kind"],
+                        "what": "a %s fingerprint of length %d was constructed with a position %s" % (d["kind"], d["bits"], beyond[:3]), "step": k}
         sh = im.sharing()
         if sh:
             return {"key": "objects-share-state:%s:%s" % (op["o"], "+".join(sorted({x.split(".")[1] for g in sh for x in g}))),
